@@ -282,4 +282,85 @@ theorem capsule3_spec (hs : LawfulSqrt sq) (pi ρ : K) (a b : V3 K) (r : K) (hpi
   · rw [sqrt_roundtrip sq hs _ (by positivity)]; ring
   · rw [sqrt_roundtrip sq hs _ (by positivity)]; ring
 
+/-- **3-D `Sum`, before the eigen-decomposition**: the triple `(total_mass, total_com, total_inertia)` that `Sum::sum` hands
+to `with_inertia_matrix` has `M = Σ m_k`, `M c = Σ m_k c_k` and, about the origin,
+`I + M(|c|²1 − ccᵀ) = Σ_k (R_k diag(I_k) R_kᵀ + m_k(|c_k|²1 − c_k c_kᵀ))` — for every finite family of members with
+non-negative masses, including massless and `zero()` members and the all-massless family (`total_mass > 0` test). -/
+theorem sum3_raw_moments (ps : List (MP3 K)) (h : ∀ a ∈ ps, 0 ≤ a.invMass) :
+    letI := fieldNum K sq
+    let r := MP3.sumRaw ps
+    r.1 = totMass3 ps ∧
+    r.2.1.x * r.1 = (totF3 ps).x ∧ r.2.1.y * r.1 = (totF3 ps).y ∧ r.2.1.z * r.1 = (totF3 ps).z ∧
+    madd r.2.2 (steiner3 r.1 r.2.1) = totTensor3 sq ps := by
+  intro r
+  obtain ⟨f1, f2, f3, f4⟩ := foldl_sumAcc3 sq ps (0, @V3.zero K (fieldNum K sq))
+  have z1 : (@V3.zero K (fieldNum K sq)).x = 0 := rfl
+  have z2 : (@V3.zero K (fieldNum K sq)).y = 0 := rfl
+  have z3 : (@V3.zero K (fieldNum K sq)).z = 0 := rfl
+  simp only [z1, z2, z3, zero_add] at f1 f2 f3 f4
+  have hM : 0 ≤ totMass3 ps := by
+    apply List.sum_nonneg; intro x hx; simp only [List.mem_map] at hx
+    obtain ⟨b, hb, rfl⟩ := hx; exact inv_nonneg.2 (h b hb)
+  have hw : ∀ x ∈ ps, 0 ≤ massOf3 x := fun x hx => inv_nonneg.2 (h x hx)
+  have r1 : r.1 = totMass3 ps := by simp only [r, MP3.sumRaw, f1]
+  -- the centre of mass: `F / M` when `M > 0`, otherwise `F` itself, which then vanishes
+  have hc : r.2.1.x * totMass3 ps = (totF3 ps).x ∧ r.2.1.y * totMass3 ps = (totF3 ps).y ∧ r.2.1.z * totMass3 ps = (totF3 ps).z := by
+    simp only [r, MP3.sumRaw, f1]
+    by_cases hp : 0 < totMass3 ps
+    · simp only [hp, if_true, V3.sdiv, f2, f3, f4]
+      refine ⟨div_mul_cancel₀ _ hp.ne', div_mul_cancel₀ _ hp.ne', div_mul_cancel₀ _ hp.ne'⟩
+    · have h0 : totMass3 ps = 0 := le_antisymm (not_lt.1 hp) hM
+      simp only [hp, if_false, f2, f3, f4, h0, mul_zero]
+      simp only [totF3]
+      exact ⟨(sum_weighted_zero ps massOf3 (fun a => a.com.x) hw h0).symm, (sum_weighted_zero ps massOf3 (fun a => a.com.y) hw h0).symm,
+        (sum_weighted_zero ps massOf3 (fun a => a.com.z) hw h0).symm⟩
+  refine ⟨r1, by rw [r1]; exact hc.1, by rw [r1]; exact hc.2.1, by rw [r1]; exact hc.2.2, ?_⟩
+  have hI : r.2.2 = madd mzero (madd (totTensor3 sq ps) (gShift (totMass3 ps) (totF3 ps) r.2.1)) := by
+    simp only [r, MP3.sumRaw]
+    rw [foldl_shifted3, msum_shift]
+    rfl
+  rw [hI, r1]
+  exact gShift_com _ _ _ hc.1.symm hc.2.1.symm hc.2.2.symm _
+
+/-- **3-D `Sum` is additive, through the eigen-decomposition** (and so is `from_compound`, which is
+`parts.map(transform_by).sum()`): for every eigen-solver returning an orthonormal eigen-decomposition with non-negative
+eigenvalues of the summed tensor, the result of `Sum::sum` has the summed mass, first moment and second-moment tensor
+about the origin. -/
+theorem sum3_full_moments (hs : LawfulSqrt sq) (eig : M3 K → V3 K × M3 K) (ps : List (MP3 K)) (h : ∀ a ∈ ps, 0 ≤ a.invMass)
+    (hE : let I := (@MP3.sumRaw K (fieldNum K sq) ps).2.2
+      EigenDecomp sq I (eig I).1 (eig I).2 ∧ 0 ≤ (eig I).1.x ∧ 0 ≤ (eig I).1.y ∧ 0 ≤ (eig I).1.z) :
+    letI := fieldNum K sq
+    let r := MP3.sum eig ps
+    massOf3 r = totMass3 ps ∧
+    r.com.x * massOf3 r = (totF3 ps).x ∧ r.com.y * massOf3 r = (totF3 ps).y ∧ r.com.z * massOf3 r = (totF3 ps).z ∧
+    madd r.reconstruct (steiner3 (massOf3 r) r.com) = totTensor3 sq ps := by
+  intro r
+  obtain ⟨hD, e1, e2, e3⟩ := hE
+  obtain ⟨r1, r2, r3, -, -⟩ := with_inertia_matrix_recompose sq hs (@MP3.sumRaw K (fieldNum K sq) ps).2.1
+    (@MP3.sumRaw K (fieldNum K sq) ps).1 _ _ _ hD e1 e2 e3
+  obtain ⟨s1, s2, s3, s4, s5⟩ := sum3_raw_moments sq ps h
+  have hr : r = @MP3.withInertiaEigen K (fieldNum K sq) (@MP3.sumRaw K (fieldNum K sq) ps).2.1 (@MP3.sumRaw K (fieldNum K sq) ps).1
+      (eig (@MP3.sumRaw K (fieldNum K sq) ps).2.2).1 (eig (@MP3.sumRaw K (fieldNum K sq) ps).2.2).2 := rfl
+  rw [hr, r1, r2, r3]
+  exact ⟨s1, s2, s3, s4, s5⟩
+
+/-- **3-D Compound = Σ transformed parts**: `from_compound` has the summed moments of the parts moved by their isometries
+(`transformBy3_covariant` gives each moved part's tensor as the conjugate `M I Mᵀ`). -/
+theorem compound3_moments (hs : LawfulSqrt sq) (eig : M3 K → V3 K × M3 K) (parts : List (Iso3 K × MP3 K))
+    (h : ∀ s ∈ parts, 0 ≤ s.2.invMass)
+    (hE : let I := (@MP3.sumRaw K (fieldNum K sq) (parts.map fun s => @MP3.transformBy K (fieldNum K sq) s.2 s.1)).2.2
+      EigenDecomp sq I (eig I).1 (eig I).2 ∧ 0 ≤ (eig I).1.x ∧ 0 ≤ (eig I).1.y ∧ 0 ≤ (eig I).1.z) :
+    letI := fieldNum K sq
+    let moved := parts.map fun s => s.2.transformBy s.1
+    let r := fromCompound3 eig parts
+    massOf3 r = totMass3 moved ∧
+    r.com.x * massOf3 r = (totF3 moved).x ∧ r.com.y * massOf3 r = (totF3 moved).y ∧ r.com.z * massOf3 r = (totF3 moved).z ∧
+    madd r.reconstruct (steiner3 (massOf3 r) r.com) = totTensor3 sq moved := by
+  intro moved r
+  apply sum3_full_moments sq hs eig moved _ hE
+  intro a ha
+  simp only [moved, List.mem_map] at ha
+  obtain ⟨s, hs', rfl⟩ := ha
+  exact h s hs'
+
 end C13
